@@ -406,7 +406,10 @@ public:
 				return false;
 		if (get_ncoeffs() != other.get_ncoeffs())
 			return false;
-		if (!std::equal(coefficients,coefficients+get_ncoeffs(),other.coefficients))
+		//a coefficient may be NaN (files preserve it); in the same place in
+		//both tables it does not make them differ
+		if (!std::equal(coefficients,coefficients+get_ncoeffs(),other.coefficients,
+		                [](float a, float b){ return a==b || (a!=a && b!=b); }))
 			return false;
 		return true;
 	}
